@@ -130,7 +130,7 @@ def gen_case(seed, cfg, index=0):
         d = r.choice([1, 2, 3])
         pts = [[f"T{r.randrange(nthreads)}", int(10 ** r.uniform(0, 4.6))] for _ in range(d)]
         policy = {"kind": "pct", "points": pts, "seed": r.randrange(1 << 30)}
-    return {"seed": seed, "threads": threads, "warm": warm, "fakes": fakes, "policy": policy, "opcode": bool(cfg.get("opcode")) and r.random() < 0.5}
+    return {"seed": seed, "threads": threads, "warm": warm, "fakes": fakes, "policy": policy, "opcode": r.random() < float(cfg.get("opcode_p", 0.0))}
 
 
 # ------------------------------------------------------------------------------------------------
@@ -569,7 +569,7 @@ def shrink_case(case, klass, cfg):
 def plan(tier):
     n = 4000 if tier == "quick" else 120000
     return {"groups": [{"env": {"hashseed": 0}, "indices": [i for i in range(n) if i % 4 != 3]}, {"env": {"hashseed": 0, "cache_size": 2}, "indices": [i for i in range(n) if i % 4 == 3]}], "n_workers": 16, "chunk": 20 if tier == "quick" else 50,
-            "wall_per_chunk": 900.0, "vacuity": ("ok_calls", 0.3), "cfg": {"wall_per_run": 120, "opcode": tier == "thorough"}, "recycle_after": 2000}
+            "wall_per_chunk": 900.0, "vacuity": ("ok_calls", 0.3), "cfg": {"wall_per_run": 120, "opcode_p": 0.5 if tier == "thorough" else 0.25}, "recycle_after": 2000}
 
 
 def describe(results, agg):
@@ -582,7 +582,7 @@ def describe(results, agg):
                 "tracer/graph.py, util/lru_cache.py, frontend/api.py or the device/namespace stack files",
         "logical_steps": agg["stats"].get("steps", 0),
         "context_switches": agg["stats"].get("switches", 0),
-        "preemption_set": "every file under einx/ except util/solver.py, line granularity; opcode granularity in frontend/backend.py, tracer/graph.py, util/lru_cache.py for half of the thorough-tier runs",
+        "preemption_set": "every file under einx/ except util/solver.py, line granularity; opcode granularity in frontend/backend.py, tracer/graph.py, util/lru_cache.py for half of the thorough-tier and a quarter of the quick-tier runs",
     }
 
 
